@@ -47,6 +47,10 @@ FLAT_PROFILE = P(force=('nesting', 'critical'), forbid=(
     'windows', 'timeouts', 'forever', 'never', 'slow_handlers', 'stalls',
     'never_handler'), failures=0.5, slow_cleanup=0.3)
 
+# insertion-order twin of C12: unwindowed trees
+UNWINDOWED_PROFILE = P(forbid=('windows', 'stalls'), zero_jobs=0.5,
+                       failures=0.4, timeouts=0.25, critical=0.25)
+
 SWEEP_EVERY = {'C08': 6, 'C11': 5, 'C13': 8}
 
 
@@ -65,6 +69,11 @@ def gen_cases(prop, seed):
         _make_flattenable(top)
         knobs = gen.gen_knobs(rng, feat)
         return [make_case(top, knobs, {"twin": "flatten"})]
+    if prop == 'C12' and seed % 3 == 0:
+        top, feat = gen.gen_tree(rng, UNWINDOWED_PROFILE)
+        knobs = gen.gen_knobs(rng, feat)
+        return [make_case(top, knobs, {"twin": "permute",
+                                       "perm_seed": rng.randrange(1 << 30)})]
     top, feat = gen.gen_tree(rng, PROFILES[prop])
     knobs = gen.gen_knobs(rng, feat)
     if prop == 'C06':
@@ -220,7 +229,8 @@ NONTRIVIAL_KEYS = {
     'C08': ('timeouts_fired',),
     'C09': ('forever_cancelled_at_end',),
     'C10': ('contained_failures', 'propagated_failures', 'flatten_judged'),
-    'C12': ('job_waited_for_slot', 'dependent_started'),
+    'C12': ('job_waited_for_slot', 'dependent_started',
+            'insertion_twin_judged'),
     'C13': ('stragglers_cancelled', 'shutdown_on:timeout',
             'shutdown_on:critical'),
     'C14': ('seen_scheduled_not_running', 'job_cancelled'),
@@ -314,8 +324,10 @@ def evaluate_case(prop, case):
         res.vtime = run.loop_stats['vtime'] + run_b.loop_stats['vtime']
         _loop_stats(run_b, stats)
         return res
-    if prop == 'C10' and case['aux'].get('twin') == 'flatten':
-        viols, run, run_b = twins.c10c(case, stats)
+    if (prop == 'C10' and case['aux'].get('twin') == 'flatten') or \
+            (prop == 'C12' and case['aux'].get('twin') == 'permute'):
+        fn = twins.c10c if prop == 'C10' else twins.c12p
+        viols, run, run_b = fn(case, stats)
         if run is None:
             res.violations, res.shape, res.nontrivial = [], 0, False
             res.run, res.vtime = None, 0.0
